@@ -248,3 +248,28 @@ theorem C13_single_file (check : Bool) (t : Tree) (arg : Bytes) (r : RunResult) 
     · simp only [Option.some.injEq] at h; subst h; exact Or.inl rfl
 
 end Crs.Props
+
+namespace Crs.Props
+open Crs Crs.Cli
+
+/-- **C18 (`generate ARG` is `generate -` on the file).** When the argument resolves to an assembly file of the tree,
+    `regex generate ARG` is — exit status, standard output, tree — `regex generate -` with that file's contents on
+    standard input, under every output option, configuration and engine: the argument decides *which* bytes are
+    compiled and nothing else. -/
+theorem C18_generate_arg_is_stdin (E : Asm.Engine) (cfg : Asm.Config) (o1 o2 : Parser.Ord) (lint : Bytes → Bool) (vOk : Bool)
+    (inv : Invocation) (t : Tree) (arg : Bytes) (ra : Update.RuleArg) (b : Bytes)
+    (hc : inv.cmd = .generate) (harg : (arg == b!"-") = false)
+    (h1 : Update.parseRuleId arg = .ok ra) (h2 : lookup (assemblyPath ra.fileName) t = some b) :
+    run E cfg o1 o2 lint vOk { inv with args := [arg] } t =
+      run E cfg o1 o2 lint vOk { inv with args := [b!"-"], stdin := b } t := by
+  have hgo : ∀ g, run.go E cfg o1 o2 lint vOk { inv with args := [arg] } t g =
+      run.go E cfg o1 o2 lint vOk { inv with args := [b!"-"], stdin := b } t g := by
+    intro g
+    unfold run.go
+    have hd : (b!"-" == b!"-") = true := by decide
+    simp only [hc, harg, hd, Bool.false_eq_true, if_false, if_true, generateCmd, h1, h2]
+    cases (runFile E cfg o1 o2 {} (fsOf t) b).2 <;> rfl
+  unfold run
+  simp only [hgo]
+
+end Crs.Props
